@@ -17,6 +17,7 @@ func init() {
 			"both NoFreelistSync arms of Commit redefine the meta's freelist pointer; the two backends share one policy implementation and a re-initialised backend forgets its previous content; syncs are skipped only under NoSync. " +
 			"NOT decided (the bulk of the property): equality of logical content and API results across option assignments and reopen schedules, and that the rebuilt list EQUALS the persisted one — relations between runtime contents.",
 		Run: func(c *Ctx) {
+			ruleOptionsWiredByName(c, "C13.R11") // each option reaches the switch of the same name
 			c13R1(c, "C13.R1")
 			c13R2(c, "C13.R2")
 			c13R3(c, "C13.R3")
